@@ -334,6 +334,25 @@ def check_spacing_objects(ctx, ns, path, N, rng):
             ctx.check(np.array_equal(np.asarray(delta), keep[0]) and np.array_equal(np.asarray(delta_f), keep[1]), nm + ":spacing_argument_modified",
                       "the spacing passed as %s was changed by the call" % nmk, wit)
 
+    # a spacing stored in a narrow float type has the value it has: the 1-D transforms with it are the transforms with that value, to the
+    # rounding of the spacing's own type -- in particular finite when N * delta_f leaves the narrow type's range (float16: 65504)
+    if N >= 2:
+        X = rng.standard_normal(N) + 1j * rng.standard_normal(N)
+        for dt, vals in ((np.float16, (60000.0, 1000.0, 0.3, 6e-5)), (np.float32, (3e38, 0.3, 1e-38))):
+            for v in vals:
+                sp = dt(v)
+                wit = {"path": path, "N": N, "spacing_as": dt.__name__ + "_scalar", "value": float(sp)}
+                ctx.case("narrow_spacing", key=(path, N, dt.__name__, v), nontrivial=True, sample=wit)
+                for nm, f in (("ft", ns.ft), ("ift", ns.ift)):
+                    with np.errstate(all="ignore"):
+                        got, want = np.asarray(f(X, sp)), np.asarray(f(X, float(sp)))
+                    if not np.isfinite(want).all():
+                        continue
+                    sc = float(np.abs(want).max())
+                    if ctx.check(bool(np.isfinite(got).all()), nm + ":narrow_spacing_type:nonfinite",
+                                 "%s(x, %s(%g)) is not finite although the transform with that spacing is" % (nm, dt.__name__, v), wit):
+                        ctx.close(nm + "_narrow_spacing", got, want.astype(got.dtype), 8 * float(np.finfo(dt).eps) * sc, nm + ":narrow_spacing_type:value", wit, scale=sc)
+
 
 def check_deep_stack(ctx, ns, path, rng):
     """More than 2^20 samples in one stack, frame count not a power of two: every frame is transformed."""
